@@ -311,12 +311,17 @@ def rescale(img, scale, shape=None, mask=None, order=3, mode='nearest',
     """
 
     img = np.asarray(img)
+    if not np.issubdtype(img.dtype, np.inexact):
+        # integer (or boolean) arrays are interpolated as floats
+        img = img.astype(float)
 
     if mask is None:
         # take the real portion to ensure that even if img is complex, mask will
         # be real
         mask = np.zeros_like(img).real
         mask[img != 0] = 1
+    else:
+        mask = np.asarray(mask, dtype=float)
 
     if shape is None:
         shape = np.ceil((img.shape[0]*scale, img.shape[1]*scale)).astype(int)
